@@ -201,20 +201,25 @@ def register(R: Registry):
     # ------------------------------------------------------------ DictSWC.copy
     def copy_post(E, v, o):
         y, x = v["result"], o["self"]
-        if y is v["self"] or set(y.fields["ndata"].items) != set(x.fields["ndata"].items):
+        if y is v["self"] or not isinstance(y, Obj) or y.cls is not x.cls or y.uid in E.entry_uids or list(y.fields["ndata"].items) != list(x.fields["ndata"].items):
+            return False
+        if y.fields["ndata"].uid in E.entry_uids or y.fields.get("names") != x.fields["names"] or y.fields.get("source") != x.fields["source"]:
             return False
         j = z3.Int(fresh_name("j"))
         out = []
-        for k in KEYS:
+        for k in x.fields["ndata"].items:
             a, b = col(y, k), col(x, k)
-            if a.uid in E.entry_uids:
+            if a.uid in E.entry_uids or getattr(a, "view_of", None) is not None:
                 return False
             out.append(z3.And(a.nz() == b.nz(), z3.ForAll([j], z3.Implies(z3.And(j >= 0, j < b.nz()), z3.Select(a.arr, j) == z3.Select(b.arr, j)))))
-        return z3.And(*out)
+        uids = [a.uid for a in y.fields["ndata"].items.values()]
+        return z3.And(*out) if len(set(uids)) == len(uids) else False
 
     R.add(f"{SWC}:DictSWC.copy", prop="C09", pure_inline=True,
-          setup=lambda S: dict(self=sym_tree(S, "t")),
-          ensures=[("equal-content-in-fresh-storage", copy_post)])
+          variants={"a-Tree-(Tree.copy)": lambda S: dict(self=sym_tree(S, "t", extra_cols=("level",))),
+                    "a-plain-DictSWC": lambda S: dict(self=sym_tree(S, "t", cls=__import__("swcgeom.core.swc", fromlist=["DictSWC"]).DictSWC))},
+          ensures=[("equal-content-in-fresh-storage", copy_post),
+                   ("original-untouched", lambda E, v, o: unchanged(E, v["self"], o["self"]))])
 
     register_path(R, path_obj)
     register_handles(R, path_obj)
